@@ -707,6 +707,9 @@ func runC15(t *testing.T, res *report.Result) {
 	// work unit = one row of a base's pair matrix (member x against every member y, and x as the
 	// signed state of the signature cases); units are dealt round-robin to the shards
 	unit := 0
+	if shard == 0 {
+		c.reentrant(bases)
+	}
 	for bi, b := range bases {
 		if deadlinePassed(deadline) {
 			res.Cap("deadline reached at base %d of %d", bi, len(bases))
@@ -782,6 +785,10 @@ func findBase(name string, thorough bool) (stBase, bool) {
 }
 
 func replayC15(t *testing.T, res *report.Result, rp replay) {
+	if rp.Check == "reentrant" {
+		(&c15{res: res, verbose: true}).reentrant(stBases(res.Thorough()))
+		return
+	}
 	b, ok := findBase(rp.Base, true)
 	if !ok {
 		t.Fatalf("unknown base %q", rp.Base)
